@@ -417,7 +417,53 @@ func checkC09(p *Program, r *Report) {
 		r.Add("C09.decides", FnName(reader), "a clear bit answers absent at once", rTest.Pos(), okAbsent, "bit test == 0 → return false")
 		r.Add("C09.decides", FnName(reader), "all hash functions' bits set answers present", rTest.Pos(), okPresent, "loop exit → return true")
 	}
-	r.Floor("C09.decides", 6)
+	// the public insert / lookup operations and their outpoint forms have no special cases of their own:
+	// lock, serialise, delegate, unlock — no branch
+	for _, name := range []string{"(*Filter).Add", "(*Filter).AddHash", "(*Filter).AddOutPoint", "(*Filter).Matches", "(*Filter).MatchesOutPoint", "(*Filter).addOutPoint", "(*Filter).matchesOutPoint"} {
+		fn := p.Func("bloom", name)
+		if fn == nil {
+			r.Unresolved("C09.decides", "bloom."+name)
+			continue
+		}
+		nIf := 0
+		var pos token.Pos = fn.Pos()
+		for _, b := range fn.Blocks {
+			if iff, ok := lastInstr(b).(*ssa.If); ok {
+				nIf++
+				pos = iff.Cond.Pos()
+			}
+		}
+		r.Add("C09.decides", FnName(fn), "no item, hash or outpoint is special-cased before it reaches the bit array", pos, nIf == 0, fmt.Sprintf("%d branch(es) in a function that should only serialise and delegate", nIf))
+	}
+	// the loaders install exactly the message they are given
+	for _, name := range []string{"LoadFilter", "(*Filter).Reload"} {
+		fn := p.Func("bloom", name)
+		if fn == nil {
+			r.Unresolved("C09.decides", "bloom."+name)
+			continue
+		}
+		okInst, how, n := true, "", 0
+		var pos token.Pos = fn.Pos()
+		for _, b := range fn.Blocks {
+			for _, in := range b.Instrs {
+				st, ok := in.(*ssa.Store)
+				if !ok {
+					continue
+				}
+				fa, ok := st.Addr.(*ssa.FieldAddr)
+				if !ok || !isNamed(derefType(fieldOfAddr(fa).Type()), "github.com/gcash/bchd/wire", "MsgFilterLoad") {
+					continue
+				}
+				n++
+				pos = st.Pos()
+				if _, isParam := st.Val.(*ssa.Parameter); !isParam {
+					okInst, how = false, "installs "+exprString(st.Val)+" instead of the message it was given (a filter within the wire limits may be dropped)"
+				}
+			}
+		}
+		r.Add("C09.decides", FnName(fn), "the loader installs the message it is given, unconditionally", pos, okInst && n == 1, how)
+	}
+	r.Floor("C09.decides", 15)
 
 	// ---- C09.clamp
 	if nf := p.Func("bloom", "NewFilter"); nf != nil {
@@ -530,6 +576,10 @@ func foreignDeterminants(p *Program, fn *ssa.Function, cond ssa.Value) []string 
 		switch x := v.(type) {
 		case *ssa.Const:
 		case *ssa.Parameter:
+			// the item may decide a branch only through its hashes: a direct look at the item (its length, a byte) is foreign
+			if _, isSlice := x.Type().Underlying().(*types.Slice); isSlice {
+				bad = append(bad, "the item "+x.Name()+" itself (only its hashes may decide)")
+			}
 		case *ssa.BinOp:
 			walk(x.X)
 			walk(x.Y)
@@ -567,6 +617,11 @@ func foreignDeterminants(p *Program, fn *ssa.Function, cond ssa.Value) []string 
 			}
 			if cal := x.Call.StaticCallee(); cal != nil && p.InRepo(cal) {
 				for _, a := range x.Call.Args {
+					if pa, isParam := a.(*ssa.Parameter); isParam {
+						if _, isSlice := pa.Type().Underlying().(*types.Slice); isSlice {
+							continue // handed on to be hashed
+						}
+					}
 					walk(a)
 				}
 				return
